@@ -80,7 +80,7 @@ def classify(case):
         t = list(gd)
     elif dim == "...":
         alld = objdims if objdims is not None else sorted({d for v in case["vars"] for d in v["dims"]})
-        t = [d for d in alld if not (b0["src"] in ("dimcoord", "nodimcoord") and b0["bins"] is None and d == b0["name"])]
+        t = list(alld)
     else:
         t = list(dim)
     anybin = any(b["bins"] is not None for b in case["by"])
